@@ -1,7 +1,7 @@
 """Render QuerySpace.tla records to SQL text over the catalog int1.t1(a,b), int2.t2(a,c), int1.t3(b,c)."""
 
 SCHEMA = {('int1', 't1'): ['a', 'b'], ('int2', 't2'): ['a', 'c'], ('int1', 't3'): ['b', 'c'],
-          ('int1', 't2'): ['a', 'c']}
+          ('int1', 't2'): ['a', 'c'], ('int3', 't1'): ['a', 'b']}
 
 W = {
     'none': '', 't1b=1': 't1.b = 1', 't2c=1': 't2.c = 1', 't1b=1&t2c=2': 't1.b = 1 and t2.c = 2',
@@ -33,7 +33,7 @@ def render(c):
     sh = c['shape']
     if sh == 'join2':
         tg = {'star': '*', 'cols': 't1.a, t2.c', 'expr': 't1.b + t2.c as s, t1.a', 'count': 'count(*)',
-              'groupcount': 't1.a, count(t2.c)'}[c['tgt']]
+              'groupcount': 't1.a, count(t2.c)', 'distinct-star': 'distinct *', 'distinct-cols': 'distinct t1.b, t2.c'}[c['tgt']]
         grp = ' group by t1.a' if c['tgt'] == 'groupcount' else ''
         order = ORDER[c['order']]
         if c['tgt'] in ('count', 'groupcount'):
@@ -56,6 +56,15 @@ def render(c):
         inner = ' where c = 1' if c['inner'] == 'c=1' else ''
         return 'with cc as (select * from int2.t2%s) select * from int1.t1 %s cc on t1.a = cc.a%s' % (
             inner, KIND[c['kind']], where(c['where']))
+    if sh == 'api':
+        tg = {'star': '*', 'cols': 'a, b', 'expr': 'b + a as s, a', 'count': 'count(*)', 'distinct-cols': 'distinct b'}[c['tgt']]
+        w = {'none': '', 'b=1': ' where b = 1', 'b>1': ' where b > 1'}[c['where']]
+        o = {'none': '', 'b': ' order by b', 'b-desc': ' order by b desc', 'b-a': ' order by b - a, a', '2': ' order by 2'}[c['order']]
+        if c['tgt'] in ('count',):
+            o = ''
+        if c['tgt'] == 'distinct-cols' and c['order'] in ('b-a', '2'):
+            o = ' order by b'
+        return 'select %s from int3.t1%s%s%s' % (tg, w, o, lim(c['lim']))
     if sh == 'cteshadow':
         i1 = ' where b > 1' if c['inner'] == 'b>1' else ''
         i2 = ' where c > 1' if c['inner'] == 'b>1' else ''
